@@ -37,8 +37,26 @@ func c14HookCombo(rep *Report, rc, lc int, api string) {
 	key := "C14:hooks:" + rcName + ":" + lcName
 	var mu sync.Mutex
 	var log []string
+	// every hook is slow: it records its notification only after a pause. The library runs hooks inside the critical
+	// section that changes the enumeration, so "the link is (no longer) enumerated" implies "its connect (disconnect)
+	// hooks have FINISHED" — a hook started with `go` would still be sleeping.
 	note := func(what string) func(string) {
-		return func(id string) { mu.Lock(); log = append(log, what+":"+id); mu.Unlock() }
+		return func(id string) {
+			time.Sleep(8 * time.Millisecond)
+			mu.Lock()
+			log = append(log, what+":"+id)
+			mu.Unlock()
+		}
+	}
+	logged := func(what string) bool {
+		mu.Lock()
+		defer mu.Unlock()
+		for _, l := range log {
+			if strings.HasPrefix(l, what+":") {
+				return true
+			}
+		}
+		return false
 	}
 	var rh *rpc.RegistryHooks
 	switch rc {
@@ -91,8 +109,33 @@ func c14HookCombo(rep *Report, rc, lc int, api string) {
 		q.Close(errors.New("closed"))
 		return
 	}
+	// the link IS enumerated: every supplied connect hook has been notified (and has returned)
+	if (rc == 2 || rc == 4) && !logged("reg.connect") {
+		rep.addViolation("property", key+":connect-order", "the link is enumerated but the registry-wide connect hook has not finished: at this instant the enumeration shows a link that was not announced as connected", desc)
+	}
+	if (lc == 1 || lc == 3) && !logged("link.connect") {
+		rep.addViolation("property", key+":connect-order", "the link is enumerated but the per-link connect hook has not finished: at this instant the enumeration shows a link that was not announced as connected", desc)
+	}
 	cancel()
 	q.Close(errors.New("closed"))
+	// …and as soon as it is NOT enumerated any more, every supplied disconnect hook has been notified
+	gone := false
+	for i := 0; i < 20000 && !gone; i++ {
+		n := 0
+		reg.ForRemotes(func(i string, r rpRemote) error { n++; return nil })
+		gone = n == 0
+		if !gone {
+			time.Sleep(50 * time.Microsecond)
+		}
+	}
+	if gone {
+		if (rc == 3 || rc == 4) && !logged("reg.disconnect") {
+			rep.addViolation("property", key+":disconnect-order", "the link is no longer enumerated but the registry-wide disconnect hook has not finished: at this instant a link announced as connected (and not yet as disconnected) is missing from the enumeration", desc)
+		}
+		if (lc == 2 || lc == 3) && !logged("link.disconnect") {
+			rep.addViolation("property", key+":disconnect-order", "the link is no longer enumerated but the per-link disconnect hook has not finished: at this instant a link announced as connected (and not yet as disconnected) is missing from the enumeration", desc)
+		}
+	}
 	select {
 	case <-done:
 	case <-time.After(watchdog):
